@@ -6,10 +6,13 @@
 import subprocess, sys, os, json, shutil, re, time
 prop, x = sys.argv[1], sys.argv[2]
 flags = sys.argv[3:]
+cxx = 'g++'
+if flags and flags[0].startswith('CXX='):
+    cxx = flags[0][4:]; flags = flags[1:]
 d = f'/tmp/seed/{prop}'; wt = d + '/wt'; o = f'{d}/out/{x}'
 def sh(cmd, **kw): return subprocess.run(cmd, shell=True, capture_output=True, text=True, **kw)
 assert sh(f'git -C {wt} status --porcelain --untracked-files=no').stdout.strip() == '', 'worktree not clean'
-demo_cmd = f'g++ -std=c++17 -O2 -DGLM_ENABLE_EXPERIMENTAL -I{wt} {" ".join(flags)} {o}/demo.cpp -o {d}/demo_bin'
+demo_cmd = f'{cxx} -std=c++17 -O2 -DGLM_ENABLE_EXPERIMENTAL -I{wt} {" ".join(flags)} {o}/demo.cpp -o {d}/demo_bin'
 log = {}
 r = sh(demo_cmd); assert r.returncode == 0, 'demo does not compile on clean tree: ' + r.stderr[-2000:]
 r = sh(f'{d}/demo_bin'); log['demo_clean_exit'] = r.returncode
